@@ -408,10 +408,9 @@ func (s *Module) defineSyncStage() error {
 		}
 	}
 
-	if s.syncStage == headersSynced|blocksSynced|mptSynced {
-		s.log.Info("state is in sync, starting regular blocks processing")
-		s.syncStage = inactive
-	}
+	// Everything is fetched already, but the ledger is still behind the sync
+	// point (see Init), so the node was stopped before the state jump. Do it now.
+	s.checkSyncIsCompleted()
 	return nil
 }
 
